@@ -201,6 +201,28 @@ func (w *Foreign) path(t *tape.Tape) {
 	w.Number(t, 1, MarkOperand)
 	w.Number(t, 1, MarkOperand)
 	nOps := t.Range(0, 6)
+	if t.Chance(1, 12) {
+		// a long polyline: many back-to-back full opcodes of one kind (hundreds
+		// of segments of the same verb, which no corpus file contains)
+		op := []byte{0x1f, 0x3f, 0x4f, 0x5f, 0x6f, 0x7f, 0x8f, 0x9f, 0xaf, 0xbf}[t.Intn(10)]
+		reps, n := 16, 2
+		switch {
+		case op < 0x40:
+			reps = 32
+		case op >= 0xa0:
+			n = 6
+		case op >= 0x60:
+			n = 4
+		}
+		for k := t.Range(4, 20); k > 0; k-- {
+			w.mark(MarkOpcode, 1)
+			w.B = append(w.B, op)
+			for j := 0; j < reps*n; j++ {
+				// 1-byte coordinates keep the file small
+				w.B = append(w.B, byte(t.Intn(128))<<1)
+			}
+		}
+	}
 	for i := 0; i < nOps; i++ {
 		w.mark(MarkOpcode, 1)
 		switch sel := t.Pick(4, 3, 3, 3, 3, 3); sel {
